@@ -50,6 +50,11 @@ def fork_run(fn, arg, timeout=RUN_WALL_TIMEOUT):
                 resource.setrlimit(resource.RLIMIT_AS, (MEM_LIMIT, MEM_LIMIT))
             except Exception:
                 pass
+            # the cyclic garbage collector runs at allocation counts inherited from the forking process and may finalise
+            # suspended library generators inside traced code: a source of nondeterminism (it shifted scheduler step
+            # indexes between the checking process and a fresh replay process).  Runs are short: no cyclic GC inside a run.
+            import gc
+            gc.disable()
             try:
                 res = fn(arg)
                 data = json.dumps(res).encode()
@@ -420,7 +425,9 @@ def write_replay(prop, verif_seed, tier, info, prog, res, original_ops):
         "events_tail": res.get("events_tail"),
     }
     with open(path, "w") as f:
-        json.dump(doc, f, indent=1, sort_keys=True)
+        # no sort_keys: the order of keys in argument dictionaries is part of the program (the library iterates over them,
+        # and under the thread scheduler the order of its source-line steps must be reproduced exactly)
+        json.dump(doc, f, indent=1)
     return path
 
 
